@@ -1017,5 +1017,54 @@ pub fn run(args: &Args, out: &mut Out) {
         "permit(principal, action, resource) when { -9223372036854775808 < -(1) } unless { (-1).foo };",
         "permit(principal is principal, action == action::\"action\", resource in resource::\"resource\");",
         "@a permit(principal, action, resource);",
+        // scope forms the printer never produces, and the rejects of `extract_scope` / `to_ref_or_refs` / `to_action_constraint`
+        "permit(principal == (User::\"a\"), action in (Action::\"a\"), resource in ((Doc::\"d\")),);",
+        "permit(principal == ((?principal)), action in [(Action::\"a\"), NS::Action::\"b\",], resource is Doc in (?resource));",
+        "permit(principal == ?resource, action, resource);",
+        "permit(principal, action, resource == ?principal);",
+        "permit(principal: User, action, resource);",
+        "permit(principal, action: Action, resource);",
+        "permit(principal, action is Action, resource);",
+        "permit(principal, action == User::\"a\", resource);",
+        "permit(principal, action in [Action::\"a\", User::\"a\"], resource);",
+        "permit(principal, action == [Action::\"a\"], resource);",
+        "permit(principal, action == ?principal, resource);",
+        "permit(principal in [User::\"a\"], action, resource);",
+        "permit(principal is User == User::\"a\", action, resource);",
+        "permit(principal is User in User::\"a\" in User::\"b\", action, resource);",
+        "permit(principal in User::\"a\" is User, action, resource);",
+        "permit(principal is User::\"a\", action, resource);",
+        "permit(principal is 1, action, resource);",
+        "permit(principal < User::\"a\", action, resource);",
+        "permit(principal = User::\"a\", action, resource);",
+        "permit(principal == User::\"a\".b, action, resource);",
+        "permit(principal == if true then User::\"a\" else User::\"b\", action, resource);",
+        "permit(principal == \"a\", action, resource);",
+        "permit(principal == User, action, resource);",
+        "permit(principal, action);",
+        "permit();",
+        "permit(principal, action, resource, context);",
+        "permit(action, principal, resource);",
+        "permit(resource, action, principal);",
+        "permit(principal, action, resource,,);",
+        "allow(principal, action, resource);",
+        "permit(principal, action, resource) when { ?principal == principal };",
+        "permit(principal == ?principal, action, resource) unless { resource in ?resource };",
+        "permit(principal, action, resource) when { };",
+        "permit(principal, action, resource) if { true };",
+        "permit(principal, action, resource) when { true }",
+        "permit(principal, action, resource) when { true };;",
+        "permit(principal, action, resource); permit(principal, action, resource);",
+        "@id(\"a\") @id(\"b\") permit(principal, action, resource);",
+        "@id @id permit(principal, action, resource);",
+        "@id(\"\\q\") permit(principal, action, resource);",
+        "@id(x) permit(principal, action, resource);",
+        "@id() permit(principal, action, resource);",
+        "@z(\"1\") @a(\"2\") @m @if(\"3\") forbid(principal, action, resource);",
+        "permit(principal, action, resource) when { true } when { true } unless { false };",
+        "permit(principal, action, resource) when { 1 } when { true && false } unless { principal has a.b };",
+        "permit(principal is __cedar::User, action, resource);",
+        "permit(principal is if, action, resource);",
+        "permit(principal is A::B::C in A::B::C::\"\\u{1F600}\", action in [], resource);",
     ] { policy_case(&mut cx, t, &mut rng.fork(), out); }
 }
